@@ -11,14 +11,16 @@ CFG = {
          'StrCmpUpto of plain strings of length <= 2 against those bit strings) + random pairs of strings of 0..20 bytes sharing '
          'prefixes (identical / one flipped bit / common prefix + tails / extension / last-byte low bits) with to drawn at the other '
          'side\'s length, byte boundaries and +-9 bits around it, from in the first byte, at to, aligned; plain a shorter / equal / '
-         'longer than the payload, flipped around bit to. A case is non-trivial when the bit strings involved are non-empty (and a is '
+         'longer than the payload, flipped around bit to + a structured sweep (payload lengths 1..12 bytes x to in {8n,8n-3,8n-7} x every position of a single differing byte x len(a) in {i+1,n-1,n,n+1}; the same pairs through Cmp). A case is non-trivial when the bit strings involved are non-empty (and a is '
          'non-empty); shape key = (op, same byte length?, relation eq/prefix/first differing byte class and bit, to mod 8 = 0?, payload '
          'class <8/8/>8 bytes | CmpUpto branch empty/short/ge, cmpBytes fast path?); distinct = distinct (op,args)',
  'assumptions': ['0 <= from <= to <= 8*len(s) (the domain of New stated in the property); strings are byte lists',
                  '8*len(s)+7 < 2^31 (int32 bit positions cannot overflow; longer strings are outside every statement)',
                  'Cmp/CmpUpto/Len are exercised on encodings produced by the real New (the theorems hold for the canonical encoding of ANY bit list)'],
  'trusted': ['modelled not verified: bytes.Compare (= cmp_sign of lexicographic order on unsigned bytes, prefix first), copy, bits.OnesCount8 (popcount), bitmap.RMask (Lib/Bits.v RMask, pinned by C12)',
-             'NOT PROVED, monitored only: memory safety of the unsafe string->slice cast in StrCmpUpto (it reads a 24-byte slice header out of a 16-byte string header); '
+             'NOT PROVED, monitored only: memory safety of the unsafe string->slice re-typing in StrCmpUpto (since the fix 907cc2b the slice header is built explicitly '
+             'with Cap = Len; before, a 24-byte slice header was read out of a 16-byte string header and the garbage capacity made a[:lb-2] panic intermittently); '
+             'what stays unproved is that no store goes through the alias of the string; '
              'every StrCmpUpto case is compared with CmpUpto on the same bytes and the inputs are checked unchanged'],
  'explanation': 'Model/Bitstr.v restates New/Cmp/cmpBytes/CmpUpto/Len with the same branches; Spec/BitstrSpec.v defines the bit string '
                 'B s f t, its canonical encoding encB and uses bits_cmp (lexicographic, proper prefix first); Properties/C09.v proves '
